@@ -24,6 +24,11 @@ def cx(v):
     return complex(f64_of_hex(v[0]), f64_of_hex(v[1]))
 
 
+def far(x, y, tol):
+    """NaN-safe: True unless |x - y| <= tol"""
+    return not (abs(x - y) <= tol)
+
+
 def simpson_c(f, a, b, n):
     h = (b - a) / n
     s = 0j
@@ -95,14 +100,14 @@ def oracle(ctx, obs):
                      "omega_i_pm": f64_of_hex(o["p"]["omega_i"])})
         # clause 2: magnitude at perfect phase matching
         ctx.seen(("peak", o["p"]["L"], o["p"]["wpx"], o["p"]["wsx"], o["p"]["wix"], o["dir_rad"]))
-        if abs(fpm - q["peak_expected"]) > TOL * q["peak_expected"]:
+        if far(fpm, q["peak_expected"], TOL * q["peak_expected"]):
             ctx.violation("S5", f"|phasematch_fiber_coupling| at perfect phase matching is {fpm!r}, expected (4/Sigma) sqrt(pi) erf(x)/(2x) = "
                           f"{q['peak_expected']!r} (relative difference {abs(fpm - q['peak_expected']) / q['peak_expected']:.3e} > 1e-3)",
                           {"kind": "peak", "crystal": st["crystal"], "pm_type": st["pm_type"]},
                           {"setup": desc, "observed": fpm, "expected": q["peak_expected"]})
         # the same with a Simpson rule of >= 128 nodes (the rayon branch of `simpson`): any quadrature of that accuracy must agree
         fpm130 = abs(cx(s[0]["v130"]))
-        if abs(fpm130 - q["peak_expected"]) > TOL * q["peak_expected"]:
+        if far(fpm130, q["peak_expected"], TOL * q["peak_expected"]):
             ctx.violation("S5", f"|phasematch_fiber_coupling| with Integrator::Simpson {{ divs: 130 }} at perfect phase matching is {fpm130!r}, expected "
                           f"{q['peak_expected']!r} (relative difference {abs(fpm130 - q['peak_expected']) / q['peak_expected']:.3e} > 1e-3)",
                           {"kind": "peak", "integrator": "Simpson130", "crystal": st["crystal"], "pm_type": st["pm_type"]},
@@ -124,17 +129,30 @@ def oracle(ctx, obs):
             rep = {"setup": desc, "detuning_rad_per_s": f64_of_hex(smp["t"]), "delta_kz_L_over_2": ff, "ratio_observed": ratio,
                    "abs_sinc": sinc, "zero_diffraction_value_with_walkoff": general,
                    "call": "phasematch_fiber_coupling(ws, wi, &spdc, Integrator::default()) / its value where Delta k_z = 0"}
-            if q["x"] <= WALKOFF_NEGLIGIBLE_X and abs(ratio - sinc) > TOL:
+            sinc_fails = q["x"] <= WALKOFF_NEGLIGIBLE_X and far(ratio, sinc, TOL)
+            if sinc_fails:
                 ctx.violation("S5", f"plane-wave limit: |F|/|F_pm| = {ratio:.6f} but |sinc(Delta k_z L/2)| = {sinc:.6f} at Delta k_z L/2 = {ff:.4f} "
                               f"({st['crystal']} {st['pm_type']}, L = {q['L'] * 1e3:.2f} mm, walk-off x = {q['x']:.2e})",
                               {"kind": "sinc_shape", "crystal": st["crystal"], "pm_type": st["pm_type"]}, rep)
             ratio130 = abs(cx(smp["v130"])) / fpm130 if fpm130 else float("nan")
-            if abs(ratio130 - general) > TOL:
+            if far(ratio130, general, TOL):
                 ctx.violation("S5", f"Integrator::Simpson {{ divs: 130 }}: |F|/|F_pm| = {ratio130:.6f}, expected {general:.6f} at Delta k_z L/2 = {ff:.4f}",
                               {"kind": "shape", "integrator": "Simpson130", "crystal": st["crystal"], "pm_type": st["pm_type"]}, rep)
-            if q["x"] <= WALKOFF_NEGLIGIBLE_X and abs(ratio - sinc) > TOL:
+            # the other quadratures of Integrator::integrate must give the same COMPLEX amplitude (real and imaginary part)
+            vdef = cx(smp["v"])
+            for key, name in (("v_gl40", "GaussLegendre { degree: 40 }"), ("v_adaptive", "AdaptiveSimpson { tolerance: 1e-9, max_depth: 20 }")):
+                if smp.get(key) is None:
+                    continue
+                vo = cx(smp[key])
+                ctx.count("integrator:" + key)
+                if far(vo, vdef, TOL * fpm):
+                    ctx.violation("S5", f"phasematch_fiber_coupling with Integrator::{name} = {vo!r} but with the default integrator {vdef!r} "
+                                  f"(difference {abs(vo - vdef) / fpm:.3e} of the phase-matched amplitude) at Delta k_z L/2 = {ff:.4f}",
+                                  {"kind": "integrator_agreement", "integrator": key, "crystal": st["crystal"], "pm_type": st["pm_type"]},
+                                  dict(rep, value=[vo.real, vo.imag], default_value=[vdef.real, vdef.imag], integrator=name))
+            if sinc_fails:
                 pass
-            elif abs(ratio - general) > TOL:
+            elif far(ratio, general, TOL):
                 ctx.violation("S5", f"zero-diffraction limit with walk-off: |F|/|F_pm| = {ratio:.6f}, expected {general:.6f} at Delta k_z L/2 = {ff:.4f} "
                               f"({st['crystal']} {st['pm_type']}, L = {q['L'] * 1e3:.2f} mm, walk-off x = {q['x']:.2e})",
                               {"kind": "walkoff_shape", "crystal": st["crystal"], "pm_type": st["pm_type"]}, rep)
@@ -218,9 +236,13 @@ def run(ctx):
         ctx.proof_failures.append(("Gen/PMSimpson.v" if "pm_simpson" in m else "Gen/PMIntegrand.v", "translator", m))
     proved = (not msgs) and prove(ctx, "C05", extra_targets=["Proofs/PMCaseTac.vo"])
     quick = ctx.tier == "quick"
-    n_pw, n_pt = (120, 4) if quick else (1500, 16)
-    obs = run_harness(ctx, binp, ["c05", ctx.seed, n_pw, n_pt], timeout=2400)
+    n_pw, n_pt, n_other = (120, 4, 10) if quick else (1500, 16, 60)
+    obs = run_harness(ctx, binp, ["c05", ctx.seed, n_pw, n_pt, n_other], timeout=2400)
     npw = oracle(ctx, obs)
+    if npw < n_pw // 2 or ctx.cov["histogram"].get("integrator:v_gl40", 0) == 0:
+        ctx.violation("S5", f"too few evaluated inputs: {npw} phase-matched directions of {n_pw} requested, "
+                      f"{ctx.cov['histogram'].get('integrator:v_gl40', 0)} samples with the other integrators", {"kind": "too_few_inputs"},
+                      {"directions": npw}, found_input=False)
     for o in [x for x in obs if x["kind"] == "pw" and all(1.0 < f64_of_hex(x["p"][k]) < 10.0 for k in ("n_p", "n_s", "n_i"))][:4]:
         q = box_quantities(o["p"])
         ctx.sample({"setup": o["setup"], "walkoff_x": q["x"], "peak_observed": abs(cx(o["samples"][0]["v"])), "peak_expected": q["peak_expected"],
@@ -245,8 +267,9 @@ def run(ctx):
                        "distinct = distinct (setup, direction, detuning bits)")
     ctx.cov["clauses"] = {
         "collinear reduction A5 = A7 = 0": "proved (generated integrand)",
-        "zero-diffraction closed form (4/Sigma) exp(-a^2(1+z)^2) e^{i(psi0 + ff z)} apod(z)": "proved_partial (generated closure with the 1/k coefficients set to 0)",
-        "the closed form is the large-waist limit of the real integrand (s^4 integrand_s -> plane-wave value)": "proved (generated integrand)",
+        "zero-diffraction closed form (4/Sigma) exp(-a^2(1+z)^2) e^{i(psi0 + ff z)} apod(z)": "proved_partial (an identity of the generated closure with its 1/k coefficients literally 0: no input of the code reaches it; it is the limit below)",
+        "the closed form is the limit of the real integrand": "limit proved, POINTWISE in z, along the scaling family pm_scale_waists / closure-level also with the walk-off scaled (C05_waist_limit, C05_closure_waist_limit, C05_closure_waist_limit_walkoff); rate validated only (S5); no theorem about phasematch_fiber_coupling of the real integrand (limit and integral are not interchanged)",
+        "all quadratures of Integrator::integrate agree on the complex amplitude (GaussLegendre 40, AdaptiveSimpson, Simpson 130)": "validated_only (S5, 1e-3 of the peak, complex values)",
         "ff = Delta k_z L/2 with the pump at ws + wi": "proved",
         "sinc integral; ratio to the phase-matched value |sinc|": "proved_partial (zero-diffraction idealisation)",
         "peak value 4/Sigma, with walk-off (4/Sigma) sqrt(pi) erf(x)/(2x)": "proved_partial (zero-diffraction idealisation)",
